@@ -171,6 +171,7 @@ fn render(o: &Offer, fl: Flavor, version: u32) -> String {
                 let f = match (x.kind, x.codec) {
                     (Kind::Audio, 0) => "0",
                     (Kind::Audio, 1) => "111 0 101",
+                    (Kind::Audio, 3) => "3 4", // static payload types (GSM, G723), no rtpmap lines
                     (Kind::Audio, _) => "120",
                     (_, 0) => "96 97",
                     (_, 1) => "102 103 96 97",
@@ -202,6 +203,9 @@ fn render(o: &Offer, fl: Flavor, version: u32) -> String {
                 s.push_str("a=T38FaxMaxBuffer:1024\r\n");
                 s.push_str("a=T38FaxMaxDatagram:238\r\n");
                 s.push_str("a=T38FaxUdpEC:t38UDPRedundancy\r\n");
+                if x.dir != 0 {
+                    s.push_str(&format!("a={}\r\n", DIRS[x.dir as usize]));
+                }
             }
             Kind::Audio | Kind::Video => {
                 s.push_str(&format!("a={}\r\n", DIRS[x.dir as usize]));
@@ -244,6 +248,7 @@ fn render(o: &Offer, fl: Flavor, version: u32) -> String {
                         s.push_str("a=rtpmap:101 telephone-event/8000\r\n");
                         s.push_str("a=fmtp:101 0-15\r\n");
                     }
+                    (Kind::Audio, 3) => {}
                     (Kind::Audio, _) => s.push_str("a=rtpmap:120 X-VERIF-A/16000\r\n"),
                     (_, 0) => vp8(&mut s, 96, 97),
                     (_, 1) => {
@@ -304,7 +309,7 @@ fn section_alphabet(kinds: &[Kind], mids: &[Mid], acodecs: &[u8], vcodecs: &[u8]
 const ALL_KINDS: [Kind; 4] = [Kind::Audio, Kind::Video, Kind::App, Kind::Image];
 
 /// Second-negotiation change operators applied to the first offer.
-const CHANGES: [&str; 7] = [
+const CHANGES: [&str; 9] = [
     "identical",
     "direction-flip",
     "next-codec-list",
@@ -312,6 +317,10 @@ const CHANGES: [&str; 7] = [
     "append-section",
     "toggle-rtcp-mux",
     "toggle-bundle",
+    // every audio / video / image section put on hold (a=inactive), the T.38 section included
+    "hold-all",
+    // image sections only: a=sendonly
+    "image-sendonly",
 ];
 
 fn apply_change(o: &Offer, ch: usize) -> Offer {
@@ -353,7 +362,21 @@ fn apply_change(o: &Offer, ch: usize) -> Offer {
                 }
             }
         }
-        _ => n.bundle = !n.bundle,
+        6 => n.bundle = !n.bundle,
+        7 => {
+            for s in &mut n.secs {
+                if s.kind != Kind::App {
+                    s.dir = 3;
+                }
+            }
+        }
+        _ => {
+            for s in &mut n.secs {
+                if s.kind == Kind::Image {
+                    s.dir = 1;
+                }
+            }
+        }
     }
     n
 }
@@ -1304,9 +1327,43 @@ fn build_space(tier: Tier, ci: usize) -> (Vec<Case>, String) {
                 n_d += 1;
             }
         }
+        // Block E: sections that give the stack no usable format list of its own - audio offering only
+        // static payload types without rtpmap (3 4), image - in every direction, alone, next to a
+        // video section and after a first negotiation (so that they land on an existing transceiver:
+        // pre-added by the local configuration, or created by the first round).
+        let mut n_e = 0u64;
+        {
+            let mut e_secs: Vec<Sec> = vec![];
+            for &mid in &[Mid::Numeric, Mid::Absent] {
+                for dir in 0..4u8 {
+                    e_secs.push(Sec { kind: Kind::Audio, mid, codec: 3, ext: 0, dir, mux: true });
+                    e_secs.push(Sec { kind: Kind::Image, mid, codec: 0, ext: 0, dir, mux: false });
+                }
+            }
+            let video = |mid: Mid| Sec { kind: Kind::Video, mid, codec: 0, ext: 1, dir: 0, mux: true };
+            for s in &e_secs {
+                for with_video in [false, true] {
+                    let mut secs = vec![s.clone()];
+                    if with_video {
+                        secs.push(video(s.mid));
+                    }
+                    for &bundle in &[true, false] {
+                        let o = Offer { secs: secs.clone(), setup: 0, bundle, sess_level: false };
+                        cases.push(Case { cfg: ci, offer: o.clone(), change: None, block: "E:formatless" });
+                        n_e += 1;
+                        if s.dir == 0 {
+                            for ch in [0usize, 7, 8] {
+                                cases.push(Case { cfg: ci, offer: o.clone(), change: Some(ch), block: "E:formatless-second" });
+                                n_e += 1;
+                            }
+                        }
+                    }
+                }
+            }
+        }
         let d = format!(
-            "cfg={}: A(n=1)={} B(n=2)={} C(n=3..6)={} D(two negotiations)={}",
-            c.name, n_a, n_b, n_c, n_d
+            "cfg={}: A(n=1)={} B(n=2)={} C(n=3..6)={} D(two negotiations)={} E(formatless sections)={}",
+            c.name, n_a, n_b, n_c, n_d, n_e
         );
         (cases, d)
     }
@@ -1323,11 +1380,11 @@ fn space_statement(tier: Tier) -> Vec<String> {
     if thorough {
         v.push("block B (two sections): all ordered pairs over 438 letters (section alphabet with video codec lists {VP8+RTX, H264(102)+VP8(96), H264(96)+VP8(98)} and extmap {none, ids 1-3, colliding}) x BUNDLE {all, none} x (WebRTC flavour) setup {actpass, active, passive}".to_string());
         v.push("block C (3..6 sections): all words of length 3,4,5,6 over 6 letters {audio sendrecv, audio recvonly, video sendonly, video inactive, application, image} (first codec list, extmap ids 1-3, rtcp-mux, setup actpass) x one mid scheme per offer {numeric, token, absent} x BUNDLE {all, none}, on all 8 configurations".to_string());
-        v.push("block D (two negotiations): base offers = block A's 678 one-section letters and all ordered pairs over 8 letters (kind x mid {numeric, absent}, audio opus+PCMU+telephone-event / video VP8+RTX, extmap ids 1-3, sendrecv, rtcp-mux), each x BUNDLE {all, none}, setup actpass; the first answer is applied with set_local_description and a second offer = one of 7 change operators {identical, direction flip (sendrecv<->sendonly), next codec list, next extmap set, append a section, toggle rtcp-mux, toggle BUNDLE} of the first is negotiated".to_string());
+        v.push("block D (two negotiations): base offers = block A's 678 one-section letters and all ordered pairs over 8 letters (kind x mid {numeric, absent}, audio opus+PCMU+telephone-event / video VP8+RTX, extmap ids 1-3, sendrecv, rtcp-mux), each x BUNDLE {all, none}, setup actpass; the first answer is applied with set_local_description and a second offer = one of 9 change operators {identical, direction flip (sendrecv<->sendonly), next codec list, next extmap set, append a section, toggle rtcp-mux, toggle BUNDLE, hold-all (a=inactive on every audio/video/image section), image-sendonly} of the first is negotiated".to_string());
     } else {
         v.push("block B (two sections): all ordered pairs over 54 letters (audio codec {PCMU, opus+PCMU+telephone-event}, video codec {VP8+RTX, H264(96)+VP8(98)}, extmap {none, colliding}, direction {sendrecv, sendonly}, rtcp-mux yes, mid 3; application/image x mid 3) x BUNDLE {all, none} x (WebRTC flavour) setup {actpass, active}; block B2: all ordered pairs and triples over {audio, video} x rtcp-mux {yes, no} (opus+PCMU / VP8+RTX, extmap ids 1-3, sendrecv, numeric mids) x BUNDLE {all, none}".to_string());
         v.push("block C (3..6 sections): all words of length 3 and 4 over 6 letters {audio sendrecv, audio recvonly, video sendonly, video inactive, application, image} on all 8 configurations, and of length 5 and 6 over 4 letters {audio sendrecv, video sendonly, application, image} on default and rtp-mode (first codec list, extmap ids 1-3, rtcp-mux, setup actpass) x one mid scheme per offer {numeric, token, absent} x BUNDLE {all, none}".to_string());
-        v.push("block D (two negotiations): base offers = one section over 168 letters (audio 3 codec lists / video {VP8+RTX, H264(102)+VP8(96), H264(96)+VP8(98)}, extmap {none, ids 1-3, colliding}, direction {sendrecv, sendonly, inactive}, rtcp-mux yes, mid 3; application/image x mid 3) and all ordered pairs over 8 letters (kind x mid {numeric, absent}, audio opus+PCMU+telephone-event / video VP8+RTX, extmap ids 1-3, sendrecv, rtcp-mux), each x BUNDLE {all, none}, setup actpass; the first answer is applied with set_local_description and a second offer = one of 7 change operators {identical, direction flip (sendrecv<->sendonly), next codec list, next extmap set, append a section, toggle rtcp-mux, toggle BUNDLE} of the first is negotiated".to_string());
+        v.push("block D (two negotiations): base offers = one section over 168 letters (audio 3 codec lists / video {VP8+RTX, H264(102)+VP8(96), H264(96)+VP8(98)}, extmap {none, ids 1-3, colliding}, direction {sendrecv, sendonly, inactive}, rtcp-mux yes, mid 3; application/image x mid 3) and all ordered pairs over 8 letters (kind x mid {numeric, absent}, audio opus+PCMU+telephone-event / video VP8+RTX, extmap ids 1-3, sendrecv, rtcp-mux), each x BUNDLE {all, none}, setup actpass; the first answer is applied with set_local_description and a second offer = one of 9 change operators {identical, direction flip (sendrecv<->sendonly), next codec list, next extmap set, append a section, toggle rtcp-mux, toggle BUNDLE, hold-all (a=inactive on every audio/video/image section), image-sendonly} of the first is negotiated".to_string());
     }
     v
 }
@@ -1572,7 +1629,7 @@ fn main() {
     rep.set("panics", json!(agg.panics.iter().map(|(k, (n, i))| json!({"panic": k, "hits": n, "first_case": i})).collect::<Vec<_>>()));
     rep.set(
         "rule",
-        "Offers are rendered from a grammar (sections x kind x mid scheme x codec list x extmap set x direction x rtcp-mux x setup x BUNDLE x attribute level), crossed with 8 local configurations and {one negotiation, two negotiations with one of 7 change operators}; every point of the stated product is executed on a fresh real PeerConnection. A case counts as distinct and non-trivial when the offer was accepted and the answer's structural shape (m-lines, mids, directions, formats, rtpmap/fmtp/extmap/rtcp-mux/setup/group attributes; ports, ICE credentials, fingerprints, SSRCs and keys removed) has not been produced before.",
+        "Offers are rendered from a grammar (sections x kind x mid scheme x codec list x extmap set x direction x rtcp-mux x setup x BUNDLE x attribute level), crossed with 8 local configurations and {one negotiation, two negotiations with one of 9 change operators}; every point of the stated product is executed on a fresh real PeerConnection. A case counts as distinct and non-trivial when the offer was accepted and the answer's structural shape (m-lines, mids, directions, formats, rtpmap/fmtp/extmap/rtcp-mux/setup/group attributes; ports, ICE credentials, fingerprints, SSRCs and keys removed) has not been produced before.",
     );
     rep.assume("setup/DTLS rule is applied to m-sections whose offer carries a=setup (media or session level); an offered holdconn accepts active, passive or holdconn");
     rep.assume("parse(to_sdp_string(d)) == d is compared after the stable move of ice-ufrag/ice-pwd/fingerprint/setup/candidate attributes in front of a=mid that to_sdp_string performs on purpose; printing must additionally be idempotent");
